@@ -122,7 +122,7 @@ def run(chk):
     for c in load_corpus():
         corpus.append((c['op'], annot.dump(pp.parse(c['seq'])), c['size']))
     # ------------------------------------------------------------------ correspondence: the four expansions
-    n_ann = 90 if tier == 'quick' else 160
+    n_ann = 90 if tier == 'quick' else 320
     anns = []
     for i in range(n_ann):
         # one case in ten carries intervals (outside the property's quantifier: they are popped and never come back;
@@ -140,7 +140,7 @@ def run(chk):
                 kk = n if k is None else k
                 if expected_count(op, n, kk) > limit:
                     # the largest enumerations (6^6 = 46656 results) only for a few annotations of the thorough tier
-                    if tier == 'quick' or chk.distribution.get('large_cases', 0) >= 4:
+                    if tier == 'quick' or expected_count(op, n, kk) > 50000 or chk.distribution.get('large_cases', 0) >= 4:
                         chk.count('skipped_large')
                         continue
                     chk.count('large_cases')
